@@ -7,7 +7,10 @@ import (
 
 	"github.com/opsidian/parsley/ast"
 	"github.com/opsidian/parsley/ast/interpreter"
+	"github.com/opsidian/parsley/data"
+	"github.com/opsidian/parsley/parser"
 	"github.com/opsidian/parsley/parsley"
+	"github.com/opsidian/parsley/text"
 	"github.com/opsidian/parsley/text/terminal"
 )
 
@@ -63,7 +66,7 @@ func (*c13Prop) Components() map[string]interface{} {
 
 func (*c13Prop) Plans(tier string) []Plan {
 	if tier == "quick" {
-		return []Plan{{Name: "trees", Workers: 12, Runs: 15000, MaxTime: 45e9, Size: 6}, {Name: "small-trees", Workers: 4, Runs: 15000, MaxTime: 45e9, Size: 3}}
+		return []Plan{{Name: "trees", Workers: 12, Runs: 15000, MaxTime: 32e9, Size: 6}, {Name: "small-trees", Workers: 4, Runs: 15000, MaxTime: 32e9, Size: 3}}
 	}
 	return []Plan{{Name: "trees", Workers: 16, Runs: 2000000, MaxTime: 600e9, Size: 9}, {Name: "small-trees", Workers: 16, Runs: 2000000, MaxTime: 240e9, Size: 3}}
 }
@@ -850,6 +853,7 @@ func c13ExecuteSeq(tree *TNode, steps []c13Step) (calls []int, mismatch string) 
 		var got, want string
 		var newRoot parsley.Node
 		var newMRoot *mTree
+		pipelineCheckFailed := false
 		func() {
 			defer func() {
 				if p := recover(); p != nil {
@@ -879,6 +883,25 @@ func c13ExecuteSeq(tree *TNode, steps []c13Step) (calls []int, mismatch string) 
 					got = "eval-err=" + errStr(err)
 				} else {
 					got = "eval=" + canon(v)
+				}
+			case "pipeline":
+				// parsley.Parse with transformation and static checking enabled: a parser
+				// that returns the tree, then Transform, then StaticCheck, errors rendered
+				// through the file set
+				f := text.NewFile("in", []byte(strings.Repeat("x", 2400)))
+				ctx := parsley.NewContext(parsley.NewFileSet(f), text.NewReader(f))
+				ctx.SetUserContext(r.userCtx)
+				ctx.EnableTransformation()
+				ctx.EnableStaticCheck()
+				tree := root
+				n, err := parsley.Parse(ctx, parser.Func(func(*parsley.Context, data.IntMap, parsley.Pos) (parsley.Node, data.IntSet, parsley.Error) {
+					return tree, data.EmptyIntSet, nil
+				}))
+				if err != nil {
+					got = "pipeline-err=" + err.Error()
+				} else {
+					got = "pipeline=" + r.shape(n)
+					newRoot = n
 				}
 			}
 		}()
@@ -912,6 +935,23 @@ func c13ExecuteSeq(tree *TNode, steps []c13Step) (calls []int, mismatch string) 
 				} else {
 					want = "eval=" + canon(v)
 				}
+			case "pipeline":
+				rendered := func(e string) string { // "pos:msg" -> "msg at in:1:pos"
+					i := strings.Index(e, ":")
+					return e[i+1:] + " at in:1:" + e[:i]
+				}
+				nr, e := m.transform(mroot)
+				if e != "" {
+					want = "pipeline-err=" + rendered(e)
+					break
+				}
+				newMRoot = nr
+				if ce := strings.TrimPrefix(m.runCheck(nr), "check="); ce != "-" {
+					want = "pipeline-err=" + rendered(ce)
+					pipelineCheckFailed = true
+					break
+				}
+				want = "pipeline=" + m.shape(nr)
 			}
 		}()
 		calls[si] = r.calls
@@ -928,7 +968,13 @@ func c13ExecuteSeq(tree *TNode, steps []c13Step) (calls []int, mismatch string) 
 		if gl != wl {
 			return calls, where + fmt.Sprintf("callback sequence differs:\n  got        %s\n  documented %s", clip(gl), clip(wl))
 		}
-		if pass == "transform" {
+		if pass == "transform" || pass == "pipeline" {
+			if pipelineCheckFailed {
+				// Transform succeeded, StaticCheck failed: Parse returns no node; the tree
+				// the model transformed is the one the library transformed in place, but the
+				// returned root is lost, so the sequence ends here
+				return calls, ""
+			}
 			if newRoot == nil || newMRoot == nil {
 				return calls, "" // aborted Transform: the partial in-place state is not asserted, the sequence ends
 			}
@@ -960,7 +1006,7 @@ func c13ExecuteSeq(tree *TNode, steps []c13Step) (calls []int, mismatch string) 
 	return calls, ""
 }
 
-var c13Passes = []string{"walk", "check", "transform", "eval"}
+var c13Passes = []string{"walk", "check", "transform", "eval", "pipeline"}
 
 func (*c13Prop) Run(cc Case) Verdict {
 	c := cc.(*c13Case)
@@ -1064,6 +1110,9 @@ func (*c13Prop) Run(cc Case) Verdict {
 			[]c13Step{{"check", 0}, {"transform", 0}, {"check", 0}},
 			[]c13Step{{"walk", 0}, {"check", 0}, {"eval", 0}},
 			[]c13Step{{"eval", 0}, {"walk", 1}, {"check", 0}},
+			[]c13Step{{"pipeline", 0}, {"eval", 0}},
+			[]c13Step{{"pipeline", 0}, {"pipeline", 0}},
+			[]c13Step{{"check", 0}, {"pipeline", 0}, {"walk", 0}},
 		)
 		for _, sq := range seqs {
 			if !runSeq(sq) {
